@@ -53,6 +53,43 @@ def cmd_merge_batch(p):
     out({'results': res})
 
 
+def cmd_merge_native(p):
+    """bounded stand-in on the REAL merge functions: exhaustive small scope with namespaces/keys that contain ':' (and empty ones):
+    |existing| <= 1, |updates| <= 2 over 4 namespaces x 4 keys; every C10.merge_* clause evaluated natively."""
+    global out
+    nss = p.get('namespaces', ['', ':a', 'a', ':a:b'])
+    keys = p.get('keys', ['k', 'a:k', 'b:k', ''])
+    entries = [(n, k) for n in nss for k in keys]
+    failures = {'study': {}, 'trial': {}}
+    runs = 0
+    real_out = out
+    got = []
+    out = lambda d: got.append(d)
+    try:
+        for which in ('study', 'trial'):
+            for old in [None] + entries:
+                md0 = [[old[0], old[1], 'old']] if old is not None else []
+                for e1 in entries:
+                    for e2 in [None] + entries:
+                        ups = [['7' if which == 'trial' else None, e1[0], e1[1], 'u1']]
+                        if e2 is not None:
+                            ups.append(['7' if which == 'trial' else None, e2[0], e2[1], 'u2'])
+                        q = {'which': which, 'md0': md0, 'updates': ups, 'trial_id': '7'}
+                        del got[:]
+                        try:
+                            cmd_merge(q)
+                            cl = got[0]['clauses']
+                        except BaseException as e:  # noqa
+                            cl = {'no_raise': False, 'exception': type(e).__name__}
+                        runs += 1
+                        for c in ('sorted_unique', 'last_writer_wins', 'wrong_trial_ignored', 'frame', 'no_raise'):
+                            if cl.get(c) is False and c not in failures[which]:
+                                failures[which][c] = {'inputs': q, 'native': cl}
+    finally:
+        out = real_out
+    out({'runs': runs, 'failures': failures, 'reproduced': any(failures[w] for w in failures)})
+
+
 def cmd_merge(p):
     from vizier._src.pyvizier.oss import metadata_util
     from vizier._src.service import study_pb2, vizier_service_pb2
